@@ -490,7 +490,10 @@ PACKED_ARRAY_BINARY_SEARCH(const void *src_, const PACKED_LEN_TYPE len,
      * branches improves performance more than stopping at the first match
      * (if duplicates exist). */
     while (min < max) {
-        const PACKED_LEN_TYPE mid = (PACKED_LEN_TYPE)((min + max) >> 1);
+        /* add in 64 bits: 'min + max' wraps a 32-bit PACKED_LEN_TYPE once the
+         * array has 2^31 or more elements */
+        const PACKED_LEN_TYPE mid =
+            (PACKED_LEN_TYPE)(((uint64_t)min + (uint64_t)max) >> 1);
         if (PACKED_ARRAY_GET(src_, mid) < val) {
             min = mid + 1;
         } else {
